@@ -195,7 +195,7 @@ def h_binary(ctx, u1, u2, ctor="string"):
             ctx.claim("eq%s true only for equal values" % tag, ctx.not_(gap))
         elif _exact_pair(u1, u2):
             # library's own window is 1e-12 absolute in px / inches
-            ctx.claim("eq%s false only for different values" % tag, ctx.ne(va, vb))
+            ctx.claim("eq%s false only for different values" % tag, ctx.xne(va, vb))   # exact in the concrete run too: the values may be tiny
     # ---- division ------------------------------------------------------------------
     ctx.assume(ctx.xne(b, 0))
     try:
